@@ -73,8 +73,8 @@ ASSUMPTIONS = [
 ]
 BOUNDS = {
     'quick': {
-        'dec/nlri': 'every registered family; ipv4/ipv6 unicast+multicast: every NLRI length 0..6 and full+1..2 (ADD-PATH: +4); nlri-mpls: lengths 0..8, 11, full+4, full+7 '
-                    '(1-3 labels), withdraw 3..8, ADD-PATH 4..10; mpls-vpn: 0..4, 9..14, 12+full, withdraw 11..14, ADD-PATH 13..17; flow/flow-vpn: 0..4 (+8) octets (rule rebuilt: '
+        'dec/nlri': 'every registered family; ipv4/ipv6 unicast+multicast: every NLRI length 0..6 and full+1..2 (ADD-PATH: +4); nlri-mpls: lengths 0..8, 11, full+4 '
+                    '(1-2 labels), withdraw 3..8, ADD-PATH 4..10; mpls-vpn: 0..4, 9..14, 12+full, withdraw 11..14, ADD-PATH 13..17; flow/flow-vpn: 0..4 (+8) octets (rule rebuilt: '
                     'normal form only, octet exactness is C16); vpls 0..24; rtc 0..15; sr-policy 0..27; EVPN/MUP/MVPN: per route type the lengths at which it accepts something '
                     'and their neighbours (EVPN_QUICK/MUP_QUICK/MVPN_QUICK), unknown route type 0..9; BGP-LS NLRI (plain and VPN): protocol-id and TLV types/lengths concrete, every value octet symbolic, '
                     'node/link/prefix/srv6-sid descriptor shapes of bgpls_shapes() plus one descriptor TLV of 0..7 free octets',
@@ -138,6 +138,22 @@ def B(ctx, x):
     return bytes(x)
 
 
+def B_any(x):
+    """carrier of whatever mode the value is in"""
+    if isinstance(x, SBytes):
+        return x
+    return bytes(x)
+
+
+def be_sym(ctx, v, n):
+    """big-endian octets of an int that may be symbolic (fresh byte variables tied to v by one linear constraint)"""
+    if isinstance(v, SInt):
+        from sx.core import int_to_items
+        return SBytes(int_to_items(v, n))
+    b = int(v).to_bytes(n, 'big')
+    return SBytes(list(b)) if ctx.sym else b
+
+
 def mk(ctx, items):
     items = list(items)
     return SBytes(items) if ctx.sym else bytes(items)
@@ -178,7 +194,8 @@ def state(o, depth=0):
     if isinstance(o, SBytes):
         return SBytes(list(o.items))
     if isinstance(o, (list, tuple)):
-        return [state(i, depth + 1) for i in o]
+        items = [state(i, depth + 1) for i in o]
+        return items if type(o) in (list, tuple) else [type(o).__name__, items]
     if isinstance(o, (set, frozenset)):
         return ['set', len(o)]
     if isinstance(o, dict):
@@ -517,8 +534,8 @@ def nlri_units(tier):
             if addpath_ok(a, s):
                 add(fam + '/addpath', a, s, swept([x + 4 for x in lens] + [0, 3, 4]), ('decoded', 'refused', 'canonical'), addpath=True, weight=20)
         elif s == 4:
-            lens = (rng(0, 8) + [11, full + 4, full + 7]) if not th else rng(0, full + 8)
-            # two units (the long buffers hold up to three labels in front of a full address: most of the paths)
+            lens = (rng(0, 8) + [11, full + 4]) if not th else rng(0, full + 8)
+            # several units (the long buffers hold up to three labels in front of a full address: most of the paths)
             add(fam + '/swept', a, s, swept([x for x in lens if x <= 11]), ('decoded', 'refused', 'canonical', 'non-canonical'), weight=150)
             for x in [x for x in lens if x > 11]:
                 add(fam + '/swept-%d' % x, a, s, swept([x]), ('decoded', 'canonical', 'non-canonical'), weight=300 if x > 12 else 100)
@@ -1364,12 +1381,15 @@ def enc_nlri(ctx, kind, x, afi, safi, fields=(), action=Action.ANNOUNCE, addpath
     chk(ctx, 'family', s_and(sx_eq(int(y.afi), int(x.afi)), sx_eq(int(y.safi), int(x.safi))), 'C15:enc:nlri:%s:family-changes' % kind,
         lambda: {'built': '%s/%s' % (x.afi, x.safi), 'decoded': '%s/%s' % (y.afi, y.safi)})
     for f in fields:
+        # the decoded field against the VALUE GIVEN TO THE FACTORY (these classes keep their octets and derive the fields:
+        # the built object's own accessor would read the same octets as the decoded one)
         try:
-            a, b = state(fld(x, f)), state(fld(y, f))
+            a = state(fields[f]) if isinstance(fields, dict) else state(fld(x, f))
+            b = state(fld(y, f))
         except Exception as exc:
             ctx.check('field:' + f, False, sig='C15:enc:nlri:%s:field-%s-unreadable' % (kind, f), info={'out': out, 'raised': '%s %s' % (type(exc).__name__, str(exc)[:160])})
             continue
-        chk(ctx, 'field:' + f, sx_eq(a, b), 'C15:enc:nlri:%s:field-%s-differs' % (kind, f), lambda: {'out': out, 'built': a, 'decoded': b})
+        chk(ctx, 'field:' + f, sx_eq(a, b), 'C15:enc:nlri:%s:field-%s-differs' % (kind, f), lambda: {'out': out, 'given': a, 'decoded': b})
     chk(ctx, 'same-octets', sx_eq(B(ctx, y.pack_nlri(neg)), out), 'C15:enc:nlri:%s:repack-differs' % kind, lambda: {'out': out, 'again': y.pack_nlri(neg)})
     chk(ctx, 'equal-index', sx_eq(B(ctx, y.index()), B(ctx, x.index())), 'C15:enc:nlri:%s:equal-routes-different-index' % kind, lambda: {'out': out})
     chk(ctx, 'equal-route', eq_by_class(y, x), 'C15:enc:nlri:%s:decoded-route-not-equal' % kind, lambda: {'out': out})
@@ -1402,6 +1422,48 @@ def q_cidr(ctx, v6, name='pfx', sizes=None):
     return CIDR.create_cidr(mk(ctx, items), mask)
 
 
+class Given(dict):
+    """the values handed to a factory, by the dotted path under which the decoded object must show them"""
+
+    def cidr(self, ctx, v6, name='pfx', sizes=None):
+        full = 16 if v6 else 4
+        nbytes = ctx.pick(name + '.octets', list(sizes) if sizes is not None else list(range(full + 1)))
+        mask = ctx.int(name + '.mask', max(0, 8 * nbytes - 7), 8 * nbytes)
+        items = sym(ctx, name, nbytes)
+        self['cidr.mask'] = mask
+        self['cidr.pack_ip'] = mk(ctx, items)
+        return CIDR.create_cidr(mk(ctx, items + [0] * (full - nbytes)), mask)
+
+    def path(self, ctx, on, name='pathid'):
+        if not on:
+            self['path_info.pack_path'] = mk(ctx, [])
+            return PathInfo.DISABLED
+        b = q_bytes(ctx, name, 4)
+        self['path_info.pack_path'] = b
+        return PathInfo(b)
+
+    def labels(self, ctx, depth, name='label', key='labels.labels'):
+        v = [ctx.int('%s%d' % (name, i), 0, Labels.MAX) for i in range(depth)]
+        self[key] = v
+        return Labels.make_labels(v)
+
+    def octets(self, ctx, key, name, n, wrap=None):
+        b = q_bytes(ctx, name, n)
+        self[key] = b
+        return wrap(b) if wrap else b
+
+    def rd(self, ctx, name='rd', key='rd.pack_rd'):
+        return self.octets(ctx, key, name, 8, RouteDistinguisher)
+
+    def ip(self, ctx, key, name, v6):
+        return self.octets(ctx, key, name, 16 if v6 else 4, IPv6 if v6 else IPv4)
+
+    def int(self, ctx, key, name, lo, hi):
+        v = ctx.int(name, lo, hi)
+        self[key] = v
+        return v
+
+
 def q_path(ctx, on, name='pathid'):
     return PathInfo(q_bytes(ctx, name, 4)) if on else PathInfo.DISABLED
 
@@ -1432,48 +1494,69 @@ def enc_nlri_units(tier):
     for v6 in (False, True):
         afi = 2 if v6 else 1
         v = 'ipv6' if v6 else 'ipv4'
+
+        def inet(ctx, safi, ap, sname, v6=v6, afi=afi, v=v):
+            g = Given()
+            x = INET.from_cidr(g.cidr(ctx, v6), AFI.from_int(afi), SAFI.from_int(safi), g.path(ctx, ap))
+            return enc_nlri(ctx, '%s-%s' % (v, sname), x, afi, safi, g, addpath=ap)
         for safi, sname in ((1, 'unicast'), (2, 'multicast')):
             for ap in ((False, True) if safi == 1 else (False,)):
-                add('%s-%s%s' % (v, sname, '/addpath' if ap else ''),
-                    lambda ctx, v6=v6, afi=afi, safi=safi, ap=ap, v=v, sname=sname: enc_nlri(
-                        ctx, '%s-%s' % (v, sname), INET.from_cidr(q_cidr(ctx, v6), AFI.from_int(afi), SAFI.from_int(safi), q_path(ctx, ap)), afi, safi,
-                        ('cidr.mask', 'cidr.pack_ip', 'path_info.pack_path'), addpath=ap), weight=20)
+                add('%s-%s%s' % (v, sname, '/addpath' if ap else ''), lambda ctx, inet=inet, safi=safi, ap=ap, sname=sname: inet(ctx, safi, ap, sname), weight=20)
+
+        def label(ctx, depth, ap, action, v6=v6, afi=afi, v=v):
+            g = Given()
+            tag = stack_class(ctx, depth, action)
+            x = Label.from_cidr(g.cidr(ctx, v6), AFI.from_int(afi), SAFI.nlri_mpls, g.path(ctx, ap), g.labels(ctx, depth))
+            return enc_nlri(ctx, '%s-nlri-mpls%s' % (v, tag), x, afi, 4, g, action=action, addpath=ap)
+
+        def vpn(ctx, depth, ap, v6=v6, afi=afi, v=v):
+            g = Given()
+            tag = stack_class(ctx, depth, Action.ANNOUNCE)
+            x = IPVPN.from_cidr(g.cidr(ctx, v6), AFI.from_int(afi), SAFI.mpls_vpn, g.path(ctx, ap), g.labels(ctx, depth), g.rd(ctx))
+            return enc_nlri(ctx, '%s-mpls-vpn%s' % (v, tag), x, afi, 128, g, addpath=ap)
         for depth in ((1, 2, 3) if th else (1, 2)):
             for ap in (False, True):
                 for action in (Action.ANNOUNCE, Action.WITHDRAW):
                     if ap and action == Action.WITHDRAW and not th:
                         continue
                     add('%s-nlri-mpls/labels%d%s%s' % (v, depth, '/addpath' if ap else '', '/withdraw' if action == Action.WITHDRAW else ''),
-                        lambda ctx, v6=v6, afi=afi, ap=ap, depth=depth, action=action, v=v: enc_nlri(
-                            ctx, '%s-nlri-mpls%s' % (v, stack_class(ctx, depth, action)), Label.from_cidr(q_cidr(ctx, v6), AFI.from_int(afi), SAFI.nlri_mpls, q_path(ctx, ap), q_labels(ctx, depth)), afi, 4,
-                            ('cidr.mask', 'cidr.pack_ip', 'path_info.pack_path', 'labels.labels'), action=action, addpath=ap), weight=40)
-            add('%s-mpls-vpn/labels%d' % (v, depth),
-                lambda ctx, v6=v6, afi=afi, depth=depth, v=v: enc_nlri(
-                    ctx, '%s-mpls-vpn%s' % (v, stack_class(ctx, depth, Action.ANNOUNCE)), IPVPN.from_cidr(q_cidr(ctx, v6), AFI.from_int(afi), SAFI.mpls_vpn, PathInfo.DISABLED, q_labels(ctx, depth), q_rd(ctx)), afi, 128,
-                    ('cidr.mask', 'cidr.pack_ip', 'labels.labels', 'rd.pack_rd')), weight=40)
-        add('%s-mpls-vpn/addpath' % v,
-            lambda ctx, v6=v6, afi=afi, v=v: enc_nlri(
-                ctx, '%s-mpls-vpn' % v, IPVPN.from_cidr(q_cidr(ctx, v6), AFI.from_int(afi), SAFI.mpls_vpn, q_path(ctx, True), q_labels(ctx, 1), q_rd(ctx)), afi, 128,
-                ('cidr.mask', 'cidr.pack_ip', 'labels.labels', 'rd.pack_rd', 'path_info.pack_path'), addpath=True), weight=40)
-        add('%s-sr-policy' % v,
-            lambda ctx, v6=v6, afi=afi, v=v: enc_nlri(
-                ctx, '%s-sr-policy' % v, SRPolicyNLRI.create(AFI.from_int(afi), ctx.int('dist', 0, 2 ** 32 - 1), ctx.int('color', 0, 2 ** 32 - 1), ctx.pick('ep', ('2001:db8::1', '::') if v6 else ('192.0.2.1', '255.255.255.255'))), afi, 73,
-                ('distinguisher', 'color', 'endpoint')))
-    add('l2vpn-vpls',
-        lambda ctx: enc_nlri(ctx, 'l2vpn-vpls', VPLS.make_vpls(q_rd(ctx), ctx.int('endpoint', 0, 65535), ctx.int('base', 0, 2 ** 20 - 1), ctx.int('offset', 0, 65535), ctx.int('size', 0, 65535)), 25, 65,
-                             ('rd.pack_rd', 'endpoint', 'base', 'offset', 'block_size')))
+                        lambda ctx, label=label, depth=depth, ap=ap, action=action: label(ctx, depth, ap, action), weight=40)
+            add('%s-mpls-vpn/labels%d' % (v, depth), lambda ctx, vpn=vpn, depth=depth: vpn(ctx, depth, False), weight=40)
+        add('%s-mpls-vpn/addpath' % v, lambda ctx, vpn=vpn: vpn(ctx, 1, True), weight=40)
+
+        def srp(ctx, v6=v6, afi=afi, v=v):
+            g = Given()
+            ep = ctx.pick('ep', ('2001:db8::1', '::') if v6 else ('192.0.2.1', '255.255.255.255'))
+            g['endpoint'] = ep
+            x = SRPolicyNLRI.create(AFI.from_int(afi), g.int(ctx, 'distinguisher', 'dist', 0, 2 ** 32 - 1), g.int(ctx, 'color', 'color', 0, 2 ** 32 - 1), ep)
+            return enc_nlri(ctx, '%s-sr-policy' % v, x, afi, 73, g)
+        add('%s-sr-policy' % v, srp)
+
+    def vpls(ctx):
+        g = Given()
+        x = VPLS.make_vpls(g.rd(ctx), g.int(ctx, 'endpoint', 'endpoint', 0, 65535), g.int(ctx, 'base', 'base', 0, 2 ** 20 - 1), g.int(ctx, 'offset', 'offset', 0, 65535), g.int(ctx, 'block_size', 'size', 0, 65535))
+        return enc_nlri(ctx, 'l2vpn-vpls', x, 25, 65, g)
+    add('l2vpn-vpls', vpls)
 
     def rtc(ctx):
-        from exabgp.bgp.message.update.attribute.community.extended.rt import RouteTargetASN2Number, RouteTargetIPNumber, RouteTargetASN4Number
+        from exabgp.bgp.message.update.attribute.community.extended.rt import RouteTargetASN2Number, RouteTargetASN4Number
+        g = Given()
         which = ctx.pick('rt', ('asn2', 'asn4', 'wildcard'))
+        origin = ctx.int('origin', 0, 2 ** 32 - 1)
         if which == 'wildcard':
             rt = None
-        elif which == 'asn2':
-            rt = RouteTargetASN2Number.make_route_target(ASN(ctx.int('rt.asn', 0, 65535)), ctx.int('rt.number', 0, 2 ** 32 - 1), bool(ctx.choice('transitive', 2)))
         else:
-            rt = RouteTargetASN4Number.make_route_target(ASN(ctx.int('rt.asn', 0, 2 ** 32 - 1)), ctx.int('rt.number', 0, 65535), bool(ctx.choice('transitive', 2)))
-        x = RTC.make_rtc(ASN(ctx.int('origin', 0, 2 ** 32 - 1)), rt)
-        return enc_nlri(ctx, 'ipv4-rtc', x, 1, 132, () if rt is None else ('origin', 'rt.pack'))
+            tr = bool(ctx.choice('transitive', 2))
+            if which == 'asn2':
+                a, n = ctx.int('rt.asn', 0, 65535), ctx.int('rt.number', 0, 2 ** 32 - 1)
+                rt = RouteTargetASN2Number.make_route_target(ASN(a), n, tr)
+            else:
+                a, n = ctx.int('rt.asn', 0, 2 ** 32 - 1), ctx.int('rt.number', 0, 65535)
+                rt = RouteTargetASN4Number.make_route_target(ASN(a), n, tr)
+            g['origin'] = origin
+            g['rt.asn'] = a
+            g['rt.number'] = n
+        return enc_nlri(ctx, 'ipv4-rtc', RTC.make_rtc(ASN(origin), rt), 1, 132, g)
     add('ipv4-rtc', rtc)
 
     # ---- EVPN
@@ -1483,26 +1566,44 @@ def enc_nlri_units(tier):
     from exabgp.bgp.message.update.nlri.evpn.segment import EthernetSegment
     from exabgp.bgp.message.update.nlri.evpn.prefix import Prefix as EVPNPrefix
 
-    def esi(ctx):
-        return ESI(q_bytes(ctx, 'esi', 10))
+    def esi(ctx, g):
+        return g.octets(ctx, 'esi.pack_esi', 'esi', 10, ESI)
 
-    def etag(ctx):
-        return EthernetTag.make_etag(ctx.int('etag', 0, 2 ** 32 - 1))
+    def etag(ctx, g):
+        return EthernetTag.make_etag(g.int(ctx, 'etag.tag', 'etag', 0, 2 ** 32 - 1))
 
     def evpn_mac(ctx):
+        g = Given()
         ipk = ctx.pick('ip', ('none', 'v4', 'v6'))
-        ip = None if ipk == 'none' else q_ip(ctx, 'ip', ipk == 'v6')
-        x = EVPNMAC.make_mac(q_rd(ctx), esi(ctx), etag(ctx), MACQ(packed=q_bytes(ctx, 'mac', 6)), 48, q_labels(ctx, ctx.pick('depth', (1, 2))), ip)
-        return enc_nlri(ctx, 'l2vpn-evpn:mac', x, 25, 70, ('rd.pack_rd', 'esi.pack_esi', 'etag.pack_etag', 'mac.pack_mac', 'maclen', 'label.labels') + (() if ip is None else ('ip.pack_ip',)))
+        ip = None if ipk == 'none' else g.ip(ctx, 'ip.pack_ip', 'ip', ipk == 'v6')
+        g['maclen'] = 48
+        x = EVPNMAC.make_mac(g.rd(ctx), esi(ctx, g), etag(ctx, g), g.octets(ctx, 'mac.pack_mac', 'mac', 6, lambda b: MACQ(packed=b)), 48, g.labels(ctx, ctx.pick('depth', (1, 2)), key='label.labels'), ip)
+        return enc_nlri(ctx, 'l2vpn-evpn:mac', x, 25, 70, g)
     add('l2vpn-evpn/mac', evpn_mac, weight=30)
-    add('l2vpn-evpn/multicast', lambda ctx: enc_nlri(ctx, 'l2vpn-evpn:multicast', Multicast.make_multicast(q_rd(ctx), etag(ctx), q_ip(ctx, 'ip', bool(ctx.choice('v6', 2)))), 25, 70, ('rd.pack_rd', 'etag.pack_etag', 'ip.pack_ip')))
-    add('l2vpn-evpn/ethernet-ad', lambda ctx: enc_nlri(ctx, 'l2vpn-evpn:ethernet-ad', EthernetAD.make_ethernetad(q_rd(ctx), esi(ctx), etag(ctx), q_labels(ctx, ctx.pick('depth', (1, 2)))), 25, 70, ('rd.pack_rd', 'esi.pack_esi', 'etag.pack_etag', 'label.labels')))
-    add('l2vpn-evpn/ethernet-segment', lambda ctx: enc_nlri(ctx, 'l2vpn-evpn:ethernet-segment', EthernetSegment.make_ethernetsegment(q_rd(ctx), esi(ctx), q_ip(ctx, 'ip', bool(ctx.choice('v6', 2)))), 25, 70, ('rd.pack_rd', 'esi.pack_esi', 'ip.pack_ip')))
+
+    def evpn_multicast(ctx):
+        g = Given()
+        x = Multicast.make_multicast(g.rd(ctx), etag(ctx, g), g.ip(ctx, 'ip.pack_ip', 'ip', bool(ctx.choice('v6', 2))))
+        return enc_nlri(ctx, 'l2vpn-evpn:multicast', x, 25, 70, g)
+    add('l2vpn-evpn/multicast', evpn_multicast)
+
+    def evpn_ad(ctx):
+        g = Given()
+        x = EthernetAD.make_ethernetad(g.rd(ctx), esi(ctx, g), etag(ctx, g), g.labels(ctx, ctx.pick('depth', (1, 2)), key='label.labels'))
+        return enc_nlri(ctx, 'l2vpn-evpn:ethernet-ad', x, 25, 70, g)
+    add('l2vpn-evpn/ethernet-ad', evpn_ad)
+
+    def evpn_es(ctx):
+        g = Given()
+        x = EthernetSegment.make_ethernetsegment(g.rd(ctx), esi(ctx, g), g.ip(ctx, 'ip.pack_ip', 'ip', bool(ctx.choice('v6', 2))))
+        return enc_nlri(ctx, 'l2vpn-evpn:ethernet-segment', x, 25, 70, g)
+    add('l2vpn-evpn/ethernet-segment', evpn_es)
 
     def evpn_prefix(ctx):
+        g = Given()
         v6 = bool(ctx.choice('v6', 2))
-        x = EVPNPrefix.make_prefix(q_rd(ctx), esi(ctx), etag(ctx), q_labels(ctx, 1), q_ip(ctx, 'ip', v6), ctx.int('iplen', 0, 128 if v6 else 32), q_ip(ctx, 'gw', v6))
-        return enc_nlri(ctx, 'l2vpn-evpn:prefix', x, 25, 70, ('rd.pack_rd', 'esi.pack_esi', 'etag.pack_etag', 'label.labels', 'ip.pack_ip', 'iplen', 'gwip.pack_ip'))
+        x = EVPNPrefix.make_prefix(g.rd(ctx), esi(ctx, g), etag(ctx, g), g.labels(ctx, 1, key='label.labels'), g.ip(ctx, 'ip.pack_ip', 'ip', v6), g.int(ctx, 'iplen', 'iplen', 0, 128 if v6 else 32), g.ip(ctx, 'gwip.pack_ip', 'gw', v6))
+        return enc_nlri(ctx, 'l2vpn-evpn:prefix', x, 25, 70, g)
     add('l2vpn-evpn/prefix', evpn_prefix)
 
     # ---- MUP
@@ -1511,38 +1612,51 @@ def enc_nlri_units(tier):
     from exabgp.bgp.message.update.nlri.mup.t1st import Type1SessionTransformedRoute
     from exabgp.bgp.message.update.nlri.mup.t2st import Type2SessionTransformedRoute
 
-    def masked_ip(ctx, name, v6, mask_name):
+    def masked_ip(ctx, g, name, v6, mask_name):
         """(prefix length, address with zero octets after the prefix): what the text parser hands to the MUP factories"""
         full = 16 if v6 else 4
-        mask = ctx.int(mask_name, 0, full * 8)
-        nbytes = ctx.concretize((mask + 7) // 8)
-        return mask, (IPv6 if v6 else IPv4)(mk(ctx, sym(ctx, name, nbytes) + [0] * (full - nbytes)))
+        nbytes = ctx.pick(name + '.octets', list(range(full + 1)))
+        mask = g.int(ctx, 'prefix_ip_len', mask_name, max(0, 8 * nbytes - 7), 8 * nbytes)
+        items = sym(ctx, name, nbytes) + [0] * (full - nbytes)
+        g['prefix_ip.pack_ip'] = mk(ctx, items)
+        return mask, (IPv6 if v6 else IPv4)(mk(ctx, items))
 
     for v6 in (False, True):
         afi = 2 if v6 else 1
         v = 'ipv6' if v6 else 'ipv4'
-        add('%s-mup/dsd' % v, lambda ctx, v6=v6, afi=afi, v=v: enc_nlri(ctx, '%s-mup:dsd' % v, DirectSegmentDiscoveryRoute.make_dsd(q_rd(ctx), q_ip(ctx, 'ip', v6), AFI.from_int(afi)), afi, 85, ('rd.pack_rd', 'ip.pack_ip')))
+
+        def dsd(ctx, v6=v6, afi=afi, v=v):
+            g = Given()
+            return enc_nlri(ctx, '%s-mup:dsd' % v, DirectSegmentDiscoveryRoute.make_dsd(g.rd(ctx), g.ip(ctx, 'ip.pack_ip', 'ip', v6), AFI.from_int(afi)), afi, 85, g)
+        add('%s-mup/dsd' % v, dsd)
 
         def isd(ctx, v6=v6, afi=afi, v=v):
-            mask, ip = masked_ip(ctx, 'ip', v6, 'plen')
-            return enc_nlri(ctx, '%s-mup:isd' % v, InterworkSegmentDiscoveryRoute.make_isd(q_rd(ctx), mask, ip, AFI.from_int(afi)), afi, 85, ('rd.pack_rd', 'prefix_ip_len', 'prefix_ip.pack_ip'))
+            g = Given()
+            mask, ip = masked_ip(ctx, g, 'ip', v6, 'plen')
+            return enc_nlri(ctx, '%s-mup:isd' % v, InterworkSegmentDiscoveryRoute.make_isd(g.rd(ctx), mask, ip, AFI.from_int(afi)), afi, 85, g)
         add('%s-mup/isd' % v, isd, weight=20)
 
         def t1st(ctx, v6=v6, afi=afi, v=v):
-            mask, ip = masked_ip(ctx, 'ip', v6, 'plen')
+            g = Given()
+            mask, ip = masked_ip(ctx, g, 'ip', v6, 'plen')
             full = 128 if v6 else 32
             src = ctx.pick('source', ('none', 'present'))
-            x = Type1SessionTransformedRoute.make_t1st(q_rd(ctx), mask, ip, ctx.int('teid', 0, 2 ** 32 - 1), ctx.int('qfi', 0, 255), full, q_ip(ctx, 'ep', v6),
-                                                       0 if src == 'none' else full, b'' if src == 'none' else q_ip(ctx, 'src', v6), AFI.from_int(afi))
-            return enc_nlri(ctx, '%s-mup:t1st' % v, x, afi, 85, ('rd.pack_rd', 'prefix_ip_len', 'prefix_ip.pack_ip', 'teid', 'qfi', 'endpoint_ip_len', 'endpoint_ip.pack_ip', 'source_ip_len'))
+            g['endpoint_ip_len'] = full
+            g['source_ip_len'] = 0 if src == 'none' else full
+            x = Type1SessionTransformedRoute.make_t1st(g.rd(ctx), mask, ip, g.int(ctx, 'teid', 'teid', 0, 2 ** 32 - 1), g.int(ctx, 'qfi', 'qfi', 0, 255), full, g.ip(ctx, 'endpoint_ip.pack_ip', 'ep', v6),
+                                                       0 if src == 'none' else full, b'' if src == 'none' else g.ip(ctx, 'source_ip.pack_ip', 'src', v6), AFI.from_int(afi))
+            return enc_nlri(ctx, '%s-mup:t1st' % v, x, afi, 85, g)
         add('%s-mup/t1st' % v, t1st, weight=30)
 
         def t2st(ctx, v6=v6, afi=afi, v=v):
+            g = Given()
             full = 128 if v6 else 32
             teid_bits = ctx.pick('teid-bits', (0, 8, 32) if not th else (0, 1, 8, 9, 16, 31, 32))
-            teid = ctx.int('teid', 0, 2 ** teid_bits - 1) if teid_bits else 0
-            x = Type2SessionTransformedRoute.make_t2st(q_rd(ctx), full + teid_bits, q_ip(ctx, 'ep', v6), teid, AFI.from_int(afi))
-            return enc_nlri(ctx, '%s-mup:t2st' % v, x, afi, 85, ('rd.pack_rd', 'endpoint_len', 'endpoint_ip.pack_ip', 'teid'))
+            teid = g.int(ctx, 'teid', 'teid', 0, 2 ** teid_bits - 1) if teid_bits else 0
+            g['teid'] = teid
+            g['endpoint_len'] = full + teid_bits
+            x = Type2SessionTransformedRoute.make_t2st(g.rd(ctx), full + teid_bits, g.ip(ctx, 'endpoint_ip.pack_ip', 'ep', v6), teid, AFI.from_int(afi))
+            return enc_nlri(ctx, '%s-mup:t2st' % v, x, afi, 85, g)
         add('%s-mup/t2st' % v, t2st, weight=20)
 
     # ---- MVPN
@@ -1552,9 +1666,17 @@ def enc_nlri_units(tier):
     for v6 in (False, True):
         afi = 2 if v6 else 1
         v = 'ipv6' if v6 else 'ipv4'
-        add('%s-mcast-vpn/source-ad' % v, lambda ctx, v6=v6, afi=afi, v=v: enc_nlri(ctx, '%s-mcast-vpn:source-ad' % v, SourceAD.make_sourcead(q_rd(ctx), AFI.from_int(afi), q_ip(ctx, 'src', v6), q_ip(ctx, 'grp', v6)), afi, 5, ('rd.pack_rd', 'source.pack_ip', 'group.pack_ip')))
-        add('%s-mcast-vpn/shared-join' % v, lambda ctx, v6=v6, afi=afi, v=v: enc_nlri(ctx, '%s-mcast-vpn:shared-join' % v, SharedJoin.make_sharedjoin(q_rd(ctx), AFI.from_int(afi), q_ip(ctx, 'src', v6), q_ip(ctx, 'grp', v6), ctx.int('source-as', 0, 2 ** 32 - 1)), afi, 5, ('rd.pack_rd', 'source.pack_ip', 'group.pack_ip', 'source_as')))
-        add('%s-mcast-vpn/source-join' % v, lambda ctx, v6=v6, afi=afi, v=v: enc_nlri(ctx, '%s-mcast-vpn:source-join' % v, SourceJoin.make_sourcejoin(q_rd(ctx), AFI.from_int(afi), q_ip(ctx, 'src', v6), q_ip(ctx, 'grp', v6), ctx.int('source-as', 0, 2 ** 32 - 1)), afi, 5, ('rd.pack_rd', 'source.pack_ip', 'group.pack_ip', 'source_as')))
+
+        def mvpn(ctx, which, v6=v6, afi=afi, v=v):
+            g = Given()
+            rd, src, grp = g.rd(ctx), g.ip(ctx, 'source.pack_ip', 'src', v6), g.ip(ctx, 'group.pack_ip', 'grp', v6)
+            if which == 'source-ad':
+                x = SourceAD.make_sourcead(rd, AFI.from_int(afi), src, grp)
+            else:
+                x = (SharedJoin.make_sharedjoin if which == 'shared-join' else SourceJoin.make_sourcejoin)(rd, AFI.from_int(afi), src, grp, g.int(ctx, 'source_as', 'source-as', 0, 2 ** 32 - 1))
+            return enc_nlri(ctx, '%s-mcast-vpn:%s' % (v, which), x, afi, 5, g)
+        for which in ('source-ad', 'shared-join', 'source-join'):
+            add('%s-mcast-vpn/%s' % (v, which), lambda ctx, mvpn=mvpn, which=which: mvpn(ctx, which))
     return us
 
 
@@ -1578,11 +1700,15 @@ def enc_attr(ctx, kind, x, code, fields=(), asn4=True, flag=None, renderings=Non
     chk(ctx, 'same-class', type(y) is type(x), 'C15:enc:%s:class-changes' % kind, lambda: {'built': type(x).__name__, 'decoded': type(y).__name__})
     for f in fields:
         try:
-            a, b = state(fld(x, f)), state(fld(y, f))
+            if isinstance(fields, dict) and callable(fields[f]):
+                chk(ctx, 'field:' + f, fields[f](y), 'C15:enc:%s:field-%s-differs' % (kind, f), lambda: {'out': out})
+                continue
+            a = state(fields[f]) if isinstance(fields, dict) else state(fld(x, f))
+            b = state(fld(y, f))
         except Exception as exc:
             ctx.check('field:' + f, False, sig='C15:enc:%s:field-%s-unreadable' % (kind, f), info={'out': out, 'raised': '%s %s' % (type(exc).__name__, str(exc)[:160])})
             continue
-        chk(ctx, 'field:' + f, sx_eq(a, b), 'C15:enc:%s:field-%s-differs' % (kind, f), lambda: {'out': out, 'built': a, 'decoded': b})
+        chk(ctx, 'field:' + f, sx_eq(a, b), 'C15:enc:%s:field-%s-differs' % (kind, f), lambda: {'out': out, 'given': a, 'decoded': b})
     chk(ctx, 'same-octets', sx_eq(B(ctx, y.pack_attribute(neg)), out), 'C15:enc:%s:repack-differs' % kind, lambda: {'out': out})
     chk(ctx, 'equal-attribute', eq_by_class(y, x), 'C15:enc:%s:decoded-attribute-not-equal' % kind, lambda: {'out': out})
     if not ctx.sym:
@@ -1628,14 +1754,31 @@ def enc_attr_units(tier):
     from exabgp.bgp.message.update.attribute.tunnel_encap import sr_policy as _sp
     from exabgp.bgp.message.update.attribute.tunnel_encap.sr_policy.segment_list import WeightSubSubTLV, SegmentTypeA, SegmentTypeB
 
-    add('origin', lambda ctx: enc_attr(ctx, 'attr-1', Origin.from_int(ctx.int('origin', 0, 2)), 1, ('origin',)))
-    add('med', lambda ctx: enc_attr(ctx, 'attr-4', MED.from_int(ctx.int('med', 0, U32)), 4, ('med',)))
-    add('local-preference', lambda ctx: enc_attr(ctx, 'attr-5', LocalPreference.from_int(ctx.int('lp', 0, U32)), 5, ('localpref',)))
+    def simple(code, kind_field, factory, lo, hi):
+        def f(ctx):
+            v = ctx.int('value', lo, hi)
+            return enc_attr(ctx, 'attr-%d' % code, factory(v), code, {kind_field: v})
+        return f
+    add('origin', simple(1, 'origin', Origin.from_int, 0, 2))
+    add('med', simple(4, 'med', MED.from_int, 0, U32))
+    add('local-preference', simple(5, 'localpref', LocalPreference.from_int, 0, U32))
+    add('aigp', simple(26, 'aigp', AIGP.from_int, 0, 2 ** 64 - 1))
     add('atomic-aggregate', lambda ctx: enc_attr(ctx, 'attr-6', AtomicAggregate.make_atomic_aggregate(), 6))
-    add('aigp', lambda ctx: enc_attr(ctx, 'attr-26', AIGP.from_int(ctx.int('aigp', 0, 2 ** 64 - 1)), 26, ('aigp',)))
-    add('next-hop', lambda ctx: enc_attr(ctx, 'attr-3', NextHop(q_bytes(ctx, 'nh', 4)), 3, ('pack_ip',)))
-    add('originator-id', lambda ctx: enc_attr(ctx, 'attr-9', OriginatorID(q_bytes(ctx, 'oid', 4)), 9, ('pack_ip',)))
-    add('cluster-list', lambda ctx: enc_attr(ctx, 'attr-10', ClusterList.make_clusterlist([IPv4(q_bytes(ctx, 'c%d' % i, 4)) for i in range(ctx.pick('n', (1, 2, 3)))]), 10, ('clusters',)))
+
+    def octets(code, klass, n=4):
+        def f(ctx):
+            b = q_bytes(ctx, 'v', n)
+            return enc_attr(ctx, 'attr-%d' % code, klass(b), code, {'pack_ip': b})
+        return f
+    add('next-hop', octets(3, NextHop))
+    add('originator-id', octets(9, OriginatorID))
+
+    def cluster_list(ctx):
+        bs = [q_bytes(ctx, 'c%d' % i, 4) for i in range(ctx.pick('n', (1, 2, 3)))]
+        exp = {'clusters.%d.pack_ip' % i: b for i, b in enumerate(bs)}
+        exp['count'] = lambda y: len(y.clusters) == len(bs)
+        return enc_attr(ctx, 'attr-10', ClusterList.make_clusterlist([IPv4(b) for b in bs]), 10, exp)
+    add('cluster-list', cluster_list)
 
     def aspath(ctx, asn4, klass=ASPath, code=2):
         top = U32 if asn4 else 65535
@@ -1645,89 +1788,144 @@ def enc_attr_units(tier):
             k = kinds[ctx.choice('k%d' % i, 4)]
             segs.append(k([ASN(ctx.int('as%d.%d' % (i, j), 0, top)) for j in range(ctx.pick('n%d' % i, (1, 2)))]))
         x = klass.make_aspath(segs, asn4)
-        return enc_attr(ctx, 'attr-%d' % code, x, code, ('aspath',), asn4=asn4)
+        return enc_attr(ctx, 'attr-%d' % code, x, code, {'aspath': segs}, asn4=asn4)
     add('as-path/asn4', lambda ctx: aspath(ctx, True), weight=30)
     add('as-path/asn2', lambda ctx: aspath(ctx, False), weight=30)
     add('as4-path', lambda ctx: aspath(ctx, True, AS4Path, 17), weight=30)
-    add('aggregator/asn4', lambda ctx: enc_attr(ctx, 'attr-7', Aggregator.make_aggregator(ASN(ctx.int('asn', 0, U32)), IPv4(q_bytes(ctx, 'sp', 4))), 7, ('asn', 'speaker.pack_ip')))
-    add('aggregator/asn2', lambda ctx: enc_attr(ctx, 'attr-7', Aggregator.make_aggregator(ASN(ctx.int('asn', 0, 65535)), IPv4(q_bytes(ctx, 'sp', 4))), 7, ('asn', 'speaker.pack_ip'), asn4=False))
-    add('communities', lambda ctx: enc_attr(ctx, 'attr-8', Communities.make_communities([Community.make_community(ctx.int('a%d' % i, 0, 65535), ctx.int('v%d' % i, 0, 65535)) for i in range(ctx.pick('n', (1, 2)))]), 8, ('communities',)), weight=20)
-    add('large-communities', lambda ctx: enc_attr(ctx, 'attr-32', LargeCommunities.make_large_communities([LargeCommunity.make_large_community(ctx.int('g%d' % i, 0, U32), ctx.int('l%d' % i, 0, U32), ctx.int('m%d' % i, 0, U32)) for i in range(ctx.pick('n', (1, 2)))]), 32, ('communities',)), weight=20)
+
+    def aggregator(ctx, asn4):
+        asn, sp = ctx.int('asn', 0, U32 if asn4 else 65535), q_bytes(ctx, 'sp', 4)
+        return enc_attr(ctx, 'attr-7', Aggregator.make_aggregator(ASN(asn), IPv4(sp)), 7, {'asn': asn, 'speaker.pack_ip': sp}, asn4=asn4)
+    add('aggregator/asn4', lambda ctx: aggregator(ctx, True))
+    add('aggregator/asn2', lambda ctx: aggregator(ctx, False))
+
+    def members(given, size):
+        """the decoded elements are the given ones as a set (the factories sort, and drop a repeated large community: RFC 8092 5)"""
+        def cond(y):
+            got = [B_any(e.pack_attribute(None) if hasattr(e, 'pack_attribute') else e.pack()) for e in y.communities]
+            if not got or len(got) > len(given):
+                return False
+            ok = True
+            for g in given:
+                ok = s_and(ok, s_or(*[sx_eq(g, e) for e in got]))
+            for e in got:
+                ok = s_and(ok, s_or(*[sx_eq(g, e) for g in given]))
+            return ok
+        return cond
+
+    def communities(ctx):
+        vals = [(ctx.int('a%d' % i, 0, 65535), ctx.int('v%d' % i, 0, 65535)) for i in range(ctx.pick('n', (1, 2)))]
+        x = Communities.make_communities([Community.make_community(a, v) for a, v in vals])
+        given = [be_sym(ctx, a, 2) + be_sym(ctx, v, 2) for a, v in vals]
+        return enc_attr(ctx, 'attr-8', x, 8, {'communities': members(given, 4)})
+    add('communities', communities, weight=20)
+
+    def large(ctx):
+        vals = [(ctx.int('g%d' % i, 0, U32), ctx.int('l%d' % i, 0, U32), ctx.int('m%d' % i, 0, U32)) for i in range(ctx.pick('n', (1, 2)))]
+        x = LargeCommunities.make_large_communities([LargeCommunity.make_large_community(*v) for v in vals])
+        given = [be_sym(ctx, a, 4) + be_sym(ctx, b, 4) + be_sym(ctx, c, 4) for a, b, c in vals]
+        return enc_attr(ctx, 'attr-32', x, 32, {'communities': members(given, 12)})
+    add('large-communities', large, weight=20)
 
     def extended(ctx):
-        which = ctx.pick('which', ('rt-asn2', 'rt-ip', 'rt-asn4', 'origin-asn2', 'redirect', 'mark', 'action', 'mac-mobility', 'encapsulation', 'l2info', 'two'))
+        which = ctx.pick('which', ('rt-asn2', 'rt-ip', 'rt-asn4', 'origin-asn2', 'redirect', 'mark', 'action', 'mac-mobility', 'encapsulation', 'l2info'))
         tr = bool(ctx.choice('transitive', 2)) if which.startswith(('rt', 'origin')) else True
-
-        def one(w, n=''):
-            if w == 'rt-asn2':
-                return _rt.RouteTargetASN2Number.make_route_target(ASN(ctx.int('asn' + n, 0, 65535)), ctx.int('num' + n, 0, U32), tr)
-            if w == 'rt-ip':
-                return _rt.RouteTargetIPNumber.make_route_target(ctx.pick('ip' + n, ('192.0.2.1', '255.255.255.255')), ctx.int('num' + n, 0, 65535), tr)
-            if w == 'rt-asn4':
-                return _rt.RouteTargetASN4Number.make_route_target(ASN(ctx.int('asn' + n, 0, U32)), ctx.int('num' + n, 0, 65535), tr)
-            if w == 'origin-asn2':
-                return _so.OriginASNIP.make_origin(ASN(ctx.int('asn' + n, 0, 65535)), ctx.pick('ip' + n, ('192.0.2.1', '0.0.0.0')), tr)
-            if w == 'redirect':
-                return TrafficRedirect.make_traffic_redirect(ASN(ctx.int('asn' + n, 0, 65535)), ctx.int('target' + n, 0, U32))
-            if w == 'mark':
-                return TrafficMark.make_traffic_mark(ctx.int('dscp' + n, 0, 63))
-            if w == 'action':
-                return TrafficAction.make_traffic_action(bool(ctx.choice('sample' + n, 2)), bool(ctx.choice('terminal' + n, 2)))
-            if w == 'mac-mobility':
-                return MacMobility.make_mac_mobility(ctx.int('seq' + n, 0, U32), bool(ctx.choice('sticky' + n, 2)))
-            if w == 'encapsulation':
-                return Encapsulation.make_encapsulation(ctx.int('tunnel' + n, 0, 65535))
-            return L2Info.make_l2info(ctx.int('encaps' + n, 0, 255), ctx.int('control' + n, 0, 255), ctx.int('mtu' + n, 0, 65535), ctx.int('reserved' + n, 0, 65535))
-        members = [one('rt-asn2', '.a'), one('mark', '.b')] if which == 'two' else [one(which)]
-        x = ExtendedCommunities.make_extended_communities(members)
-        return enc_attr(ctx, 'attr-16:' + which, x, 16, ('communities',))
+        e = 'communities.0.'
+        exp = {}
+        if which == 'rt-asn2':
+            a, n = ctx.int('asn', 0, 65535), ctx.int('num', 0, U32)
+            m, exp = _rt.RouteTargetASN2Number.make_route_target(ASN(a), n, tr), {e + 'asn': a, e + 'number': n}
+        elif which == 'rt-ip':
+            ip, n = ctx.pick('ip', ('192.0.2.1', '255.255.255.255')), ctx.int('num', 0, 65535)
+            m, exp = _rt.RouteTargetIPNumber.make_route_target(ip, n, tr), {e + 'ip': ip, e + 'number': n}
+        elif which == 'rt-asn4':
+            a, n = ctx.int('asn', 0, U32), ctx.int('num', 0, 65535)
+            m, exp = _rt.RouteTargetASN4Number.make_route_target(ASN(a), n, tr), {e + 'asn': a, e + 'number': n}
+        elif which == 'origin-asn2':
+            a, ip = ctx.int('asn', 0, 65535), ctx.pick('ip', ('192.0.2.1', '0.0.0.0'))
+            m, exp = _so.OriginASNIP.make_origin(ASN(a), ip, tr), {e + 'asn': a, e + 'ip': ip}
+        elif which == 'redirect':
+            a, t = ctx.int('asn', 0, 65535), ctx.int('target', 0, U32)
+            m, exp = TrafficRedirect.make_traffic_redirect(ASN(a), t), {e + 'asn': a, e + 'target': t}
+        elif which == 'mark':
+            d = ctx.int('dscp', 0, 63)
+            m, exp = TrafficMark.make_traffic_mark(d), {e + 'dscp': d}
+        elif which == 'action':
+            sa, te = bool(ctx.choice('sample', 2)), bool(ctx.choice('terminal', 2))
+            m, exp = TrafficAction.make_traffic_action(sa, te), {e + 'sample': sa, e + 'terminal': te}
+        elif which == 'mac-mobility':
+            q, st = ctx.int('seq', 0, U32), bool(ctx.choice('sticky', 2))
+            m, exp = MacMobility.make_mac_mobility(q, st), {e + 'sequence': q, e + 'sticky': st}
+        elif which == 'encapsulation':
+            t = ctx.int('tunnel', 0, 65535)
+            m, exp = Encapsulation.make_encapsulation(t), {e + 'tunnel_type': t}
+        else:
+            en, co, mtu, rs = ctx.int('encaps', 0, 255), ctx.int('control', 0, 255), ctx.int('mtu', 0, 65535), ctx.int('reserved', 0, 65535)
+            m, exp = L2Info.make_l2info(en, co, mtu, rs), {e + 'encaps': en, e + 'control': co, e + 'mtu': mtu, e + 'reserved': rs}
+        exp['class'] = lambda y: type(y.communities[0]) is type(m)
+        if which.startswith(('rt', 'origin')):
+            exp['transitive'] = lambda y: sx_eq((B_any(y.communities[0]._packed)[0] // 64) % 2, 0 if tr else 1)
+        x = ExtendedCommunities.make_extended_communities([m])
+        return enc_attr(ctx, 'attr-16:' + which, x, 16, exp)
     add('extended-communities', extended, weight=40)
 
     def pmsi(ctx):
         from exabgp.bgp.message.update.attribute.pmsi import PMSI as P
         t = ctx.pick('tunnel-type', (0, 6, 1, 3))
         tunnel = mk(ctx, []) if t == 0 else q_bytes(ctx, 'tunnel', {6: 4, 1: 12, 3: 8}[t])
-        x = P.make_pmsi(t, ctx.int('flags', 0, 255), ctx.int('label', 0, 2 ** 20 - 1), tunnel)
-        return enc_attr(ctx, 'attr-22', x, 22, ('flags', 'label', 'tunnel'))
+        fl, lb = ctx.int('flags', 0, 255), ctx.int('label', 0, 2 ** 20 - 1)
+        x = P.make_pmsi(t, fl, lb, tunnel)
+        return enc_attr(ctx, 'attr-22', x, 22, {'flags': fl, 'label': lb, 'tunnel': tunnel, 'tunnel_type': t})
     add('pmsi', pmsi, weight=20)
 
     def prefix_sid(ctx):
         which = ctx.pick('which', ('label-index', 'label-index+srgb'))
-        attrs = [SrLabelIndex.make_labelindex(ctx.int('index', 0, U32))]
+        idx = ctx.int('index', 0, U32)
+        attrs, exp = [SrLabelIndex.make_labelindex(idx)], {'sr_attrs.0.labelindex': idx}
         if which != 'label-index':
-            attrs.append(SrGb.make_srgb([(ctx.int('base%d' % i, 0, 2 ** 24 - 1), ctx.int('range%d' % i, 0, 2 ** 24 - 1)) for i in range(ctx.pick('n', (1, 2)))]))
+            ranges = [(ctx.int('base%d' % i, 0, 2 ** 24 - 1), ctx.int('range%d' % i, 0, 2 ** 24 - 1)) for i in range(ctx.pick('n', (1, 2)))]
+            attrs.append(SrGb.make_srgb(ranges))
+            exp['sr_attrs.1.srgbs'] = [list(r) for r in ranges]
         x = PrefixSid(attrs)
-        return enc_attr(ctx, 'attr-40', x, 40, ('sr_attrs',))
+        return enc_attr(ctx, 'attr-40', x, 40, exp)
     add('prefix-sid', prefix_sid, weight=20)
 
     def tunnel(ctx):
         which = ctx.pick('which', ('preference', 'priority', 'binding-sid', 'binding-sid-null', 'names', 'segment-list', 'all'))
-        subs = []
+        subs, exp = [], {}
+
+        def put(obj, **given):
+            base = 'tunnel_tlvs.0.subtlvs.%d.' % len(subs)
+            subs.append(obj)
+            for k, v in given.items():
+                exp[base + k.replace('__', '.')] = v
         if which in ('preference', 'all'):
-            subs.append(_sp.PreferenceSubTLV(ctx.int('pref', 0, U32), ctx.int('pref.flags', 0, 255)))
+            p, f = ctx.int('pref', 0, U32), ctx.int('pref.flags', 0, 255)
+            put(_sp.PreferenceSubTLV(p, f), preference=p, flags=f)
         if which in ('priority', 'all'):
-            subs.append(_sp.PrioritySubTLV(ctx.int('prio', 0, 255)))
+            p = ctx.int('prio', 0, 255)
+            put(_sp.PrioritySubTLV(p), priority=p)
         if which in ('binding-sid', 'all'):
-            subs.append(_sp.BindingSIDSubTLV(ctx.int('bsid', 0, 2 ** 20 - 1), ctx.pick('bsid.flags', (0, 0x80, 0xc0))))
+            lb = ctx.int('bsid', 0, 2 ** 20 - 1)
+            put(_sp.BindingSIDSubTLV(lb, ctx.pick('bsid.flags', (0, 0x80, 0xc0))), label=lb)
         if which == 'binding-sid-null':
-            subs.append(_sp.BindingSIDSubTLV(None, ctx.int('bsid.flags', 0, 255)))
+            f = ctx.int('bsid.flags', 0, 255)
+            put(_sp.BindingSIDSubTLV(None, f), label=None, flags=f)
         if which in ('names', 'all'):
-            subs.append(_sp.PolicyNameSubTLV(ctx.pick('pname', ('edge-1', 'a "quoted" \\ name', 'caf\u00e9')), ctx.int('pname.flags', 0, 255)))
-            subs.append(_sp.CandidatePathNameSubTLV(ctx.pick('cname', ('path-1', '')), ctx.int('cname.flags', 0, 255)))
+            n, f = ctx.pick('pname', ('edge-1', 'a "quoted" \\ name', 'caf\u00e9')), ctx.int('pname.flags', 0, 255)
+            put(_sp.PolicyNameSubTLV(n, f), name=n, flags=f)
+            n, f = ctx.pick('cname', ('path-1', '')), ctx.int('cname.flags', 0, 255)
+            put(_sp.CandidatePathNameSubTLV(n, f), name=n, flags=f)
         if which in ('segment-list', 'all'):
-            segs = [SegmentTypeA(ctx.pick('a.label', (16, 2 ** 20 - 1)), ctx.int('a.flags', 0, 255)), SegmentTypeA(ctx.pick('a2.label', (0, 1000)), 0)]
-            subs.append(_sp.SegmentListSubTLV(WeightSubSubTLV(ctx.int('weight', 0, U32), ctx.int('w.flags', 0, 255)), segs))
+            l0, f0, l1 = ctx.pick('a.label', (16, 2 ** 20 - 1)), ctx.int('a.flags', 0, 255), ctx.pick('a2.label', (0, 1000))
+            w, wf = ctx.int('weight', 0, U32), ctx.int('w.flags', 0, 255)
+            put(_sp.SegmentListSubTLV(WeightSubSubTLV(w, wf), [SegmentTypeA(l0, f0), SegmentTypeA(l1, 0)]),
+                weight__weight=w, weight__flags=wf, segments__0__label=l0, segments__0__flags=f0, segments__0__s=False, segments__1__label=l1, segments__1__s=True)
         x = TunnelEncap([_sp.SRPolicyTunnel(subs)])
         # the encoder sets two bits whatever the object holds: flag 0x10 of a binding SID that has a label, and S on the last MPLS
-        # segment of a list (RFC 3032); so the VALUES are compared field by field, those two bits are not, and of the renderings
-        # the text ones (json prints "s")
-        paths = []
-        for i, t in enumerate(subs):
-            base = 'tunnel_tlvs.0.subtlvs.%d.' % i
-            for f in {'PreferenceSubTLV': ('preference', 'flags'), 'PrioritySubTLV': ('priority',), 'BindingSIDSubTLV': ('label',), 'PolicyNameSubTLV': ('name', 'flags'),
-                      'CandidatePathNameSubTLV': ('name', 'flags'), 'SegmentListSubTLV': ('weight.weight', 'weight.flags', 'segments.0.label', 'segments.0.flags', 'segments.0.s', 'segments.1.label')}[type(t).__name__]:
-                paths.append(base + f)
-        return enc_attr(ctx, 'attr-23:' + which, x, 23, tuple(paths), renderings=('collection-str', '__str__'))
+        # segment of a list (RFC 3032): the VALUES are compared field by field, the binding SID flags are not, S is expected as
+        # the encoder sets it, and of the renderings the text ones (json prints "s")
+        return enc_attr(ctx, 'attr-23:' + which, x, 23, exp, renderings=('collection-str', '__str__'))
     add('tunnel-encap', tunnel, weight=40)
 
     # ---- BGP-LS attribute TLVs from their factories: the decoded content must be what was given to the factory
@@ -1911,7 +2109,7 @@ def index_pair(ctx, kind, a, b, keys, same_family=True):
 def index_units(tier):
     th = tier == 'thorough'
     us = []
-    T = 1500 if th else 400
+    T = 1500 if th else 600
 
     def add(name, fn, weight=30, cover=('built', 'equal', 'unequal')):
         us.append(Unit('index/' + name, fn, must_cover=cover, weight=weight, max_seconds=T, max_paths=40000, reset=reset_state, hash_const=True))
